@@ -10,6 +10,7 @@ package c19
 import (
 	"context"
 	"fmt"
+	"net"
 	"os"
 	"path/filepath"
 	"regexp"
@@ -226,7 +227,18 @@ func TestC19(t *testing.T) {
 		}
 		store := metrics.NewStore()
 		ctx, cancel := context.WithCancel(context.Background())
-		opts := []mtail.Option{mtail.ProgramPath(progDir), mtail.LogPathPatterns(paths...), mtail.OneShot}
+		pats := paths
+		if run%4 == 3 {
+			// the logs are found by one glob, which also matches an entry that
+			// cannot be tailed and sorts first (a stale unix socket file)
+			if ul, err := net.ListenUnix("unix", &net.UnixAddr{Name: filepath.Join(dir, "log-0sock"), Net: "unix"}); err == nil {
+				ul.SetUnlinkOnClose(false)
+				ul.Close()
+				pats = []string{filepath.Join(dir, "log*")}
+				r.Count("runs_with_a_glob_matching_an_untailable_entry", 1)
+			}
+		}
+		opts := []mtail.Option{mtail.ProgramPath(progDir), mtail.LogPathPatterns(pats...), mtail.OneShot}
 		switch run % 3 {
 		case 1: // the binary always has an HTTP listener, also in one-shot mode
 			opts = append(opts, mtail.BindUnixSocket(filepath.Join(dir, "http.sock")))
